@@ -32,6 +32,17 @@ NestedOnlyVars(doc) ==
   LET top == UNION {TopVars(doc.ops[i].sel) \cup DirsVars(doc.ops[i].dirs) : i \in DOMAIN doc.ops}
              \cup UNION {TopVars(doc.frags[i].sel) \cup DirsVars(doc.frags[i].dirs) : i \in DOMAIN doc.frags}
   IN UNION {OpVarUses(doc, doc.ops[i]) : i \in DOMAIN doc.ops} \ top
+\* variables nested in a list / object literal of a directive argument (neither extracted nor renamed by the implementation)
+NestedInValue(v) == IF v.t \in {"l", "o"} THEN VarsInValue(v) ELSE {}
+DirLitVars(dirs) == UNION {UNION {NestedInValue(dirs[i].args[j].value) : j \in DOMAIN dirs[i].args} : i \in DOMAIN dirs}
+RECURSIVE SelDirLitVars(_)
+SelDirLitVars(sel) == UNION {DirLitVars(sel[i].dirs) \cup SelDirLitVars(sel[i].sel) : i \in DOMAIN sel}
+DirectiveLiteralVars(doc) ==
+  UNION {SelDirLitVars(doc.ops[i].sel) \cup DirLitVars(doc.ops[i].dirs) : i \in DOMAIN doc.ops}
+  \cup UNION {SelDirLitVars(doc.frags[i].sel) \cup DirLitVars(doc.frags[i].dirs) : i \in DOMAIN doc.frags}
+DuplicatedVars(doc) ==
+  UNION {{doc.ops[i].vars[j].name : j \in {k \in DOMAIN doc.ops[i].vars : \E m \in DOMAIN doc.ops[i].vars : m # k /\ doc.ops[i].vars[m].name = doc.ops[i].vars[k].name}}
+         : i \in DOMAIN doc.ops}
 UnusedIn(doc) == UNION {Range(Names(doc.ops[i].vars)) \ OpVarUses(doc, doc.ops[i]) : i \in DOMAIN doc.ops}
 
 Judge ==
@@ -44,7 +55,9 @@ Judge ==
            \* the meaning is compared whenever the normalized operation can be executed by the reference semantics
            \* (an unused variable definition does not prevent that)
            diff == IF Executable(S, nd) /\ failed \subseteq {"VariablesUsed"} THEN Differing(S, o) ELSE {}
-           tokens == {IF t = "VariablesUsed" /\ UnusedIn(nd) \subseteq NestedOnlyVars(Reachable(o.doc)) THEN "VariablesUsed/nested-only-variable" ELSE t
+           tokens == {IF t = "VariablesUsed" /\ UnusedIn(nd) \subseteq NestedOnlyVars(Reachable(o.doc)) THEN "VariablesUsed/nested-only-variable"
+                      ELSE IF t = "VariablesUnique" /\ DuplicatedVars(nd) \subseteq DirectiveLiteralVars(Reachable(o.doc))
+                           THEN "VariablesUnique/directive-literal-variable" ELSE t
                       : t \in TokensOf(S, nd, failed)}
            \* does the known defect (ExecAlt) explain the difference?
            alt == diff # {} /\ \A u \in DOMAIN Probe(S) : Exec(S, Probe(S)[u], o.ndoc, o.nvars) = ExecAlt(S, Probe(S)[u], o.doc, o.vars)
